@@ -50,8 +50,16 @@ func Line(r *rand.Rand, o TextOpts) (string, string) {
 		return pick(r, []string{"---\n---", "---\n---\n---", "/-/-/-/\n---", "---\n/-/-/-/"}), "terminator-run"
 	case x < 53:
 		return "/-/-/-/", "escape-token"
-	case x < 56:
+	case x < 55:
 		return pick(r, []string{"----", "--- ", " ---", "/-/-/-/ ", "--", "/-/-/-", "---x", "x---"}), "near-terminator"
+	case x < 56:
+		// a line that ends (or starts) with the terminator exactly at a 4096-byte chunk boundary
+		// of a buffered reader: read in fragments, its last fragment IS `---`
+		k := []int{4096, 8192, 4096 * 16, 4093, 4095, 4097}[r.IntN(6)]
+		if r.IntN(3) == 0 {
+			return "---" + strings.Repeat("c", k), "terminator-at-chunk-boundary"
+		}
+		return strings.Repeat("c", k) + pick(r, []string{"---", "---", "/-/-/-/"}), "terminator-at-chunk-boundary"
 	case x < 58:
 		// the terminator or its escape token INSIDE a line
 		return pick(r, []string{"x --- y", "x /-/-/-/ y", "a/-/-/-/", "/-/-/-/b", "key: /-/-/-/ # c", "--- and /-/-/-/"}), "terminator-inside-line"
